@@ -47,14 +47,15 @@ def units():
     hs = [Harness(f"serialize_exact_{m}", ["C14"], complete=False, bound=f"the 8 presence patterns {int(m[1:])}..{int(m[1:]) + 7} of the 128 (all 128 covered by the 16 harnesses); " + MB, functions=fs,
                   desc="recording Serializer: exactly the present claims, declaration order, registered names, no null, strings byte for byte, timestamps in their own serde form")
           for m in masks]
-    hs += [Harness(f"roundtrip_{m}", ["C14"], complete=False, bound=f"presence patterns {int(m[1:])}..{int(m[1:]) + 7}; " + MB, functions=fs,
-                   desc="deserialize(events emitted by serialize(c)) == c field by field") for m in masks]
+    hs += [Harness(f"roundtrip_p{m:03d}", ["C14"], complete=False, bound=f"the 4 presence patterns {m}..{m + 3} of the 128 (all 128 covered by the 32 harnesses); " + MB, functions=fs,
+                   desc="deserialize(events emitted by serialize(c)) == c field by field") for m in range(0, 128, 4)]
     SB = "maps of exactly {n} members; keys symbolic over the 7 registered names and 5 unregistered ones (same length, prefix, extension, other case, empty), delivered as str or bytes; values symbolic: null / ASCII string of <= 3 bytes / timestamp (any i128) / number"
     for n in range(5):
         hs.append(Harness(f"deserialize_script_n{n}", ["C14"], complete=False, bound=SB.format(n=n), functions=fs, tier="quick" if n < 4 else "thorough", timeout=1800,
                           desc="scripted MapAccess: last-wins values, unknown members ignored but consumed, wrong type / repeated non-null claim = error (duplicate_field), MapAccess protocol"))
     hs += [
-        Harness("deserialize_order_independent_n3", ["C14"], complete=False, bound="3 members with pairwise different keys, all 6 orders (reversal + rotation)", functions=fs, timeout=1800),
+        Harness("deserialize_order_independent_n2", ["C14"], complete=False, bound="2 members with different keys, both orders", functions=fs),
+        Harness("deserialize_order_independent_n3", ["C14"], complete=False, bound="3 members with pairwise different keys, all 6 orders (reversal + rotation)", functions=fs, timeout=2400, tier="thorough"),
         Harness("field_names_exact", ["C14"], complete=False, bound="one member; key = every ASCII string of length 0..=4", functions=fs),
         Harness("writer_forwards_every_byte", ["C14"], complete=False, bound="buffers of 0..=4 bytes", functions=fs),
         Harness("footer_empty_rejected", ["C14"], functions=fs),
